@@ -24,7 +24,7 @@ pub fn property() -> Property {
             "tokio paused clock and current-thread scheduler; the harness pipe",
             "server session wired as handle_connection wires it (callback channel, recv_loop, process_stream_data)",
         ],
-        families: vec![(Box::new(PipeFam), 1_200, 30_000)],
+        families: vec![(Box::new(PipeFam), 1_200, 30_000), (Box::new(crate::props::e2e::TunnelFam), 40, 800)],
     }
 }
 
@@ -160,7 +160,26 @@ async fn write_dir(sess: Arc<Session>, st: Arc<Stream>, plan: DirPlan, key: u32,
     Ok(())
 }
 
+thread_local! {
+    /// the first content failure seen by any reader of the current case (more telling than the
+    /// stall that usually follows it)
+    static FIRST_FAIL: std::cell::RefCell<Option<Fail>> = const { std::cell::RefCell::new(None) };
+}
+
 async fn read_dir(st: Arc<Stream>, plan: DirPlan, key: u32, dir: u8, prog: Arc<Mutex<Progress>>) -> Result<(), Fail> {
+    let r = read_dir_inner(st, plan, key, dir, prog).await;
+    if let Err(f) = &r {
+        FIRST_FAIL.with(|s| {
+            let mut s = s.borrow_mut();
+            if s.is_none() {
+                *s = Some(f.clone());
+            }
+        });
+    }
+    r
+}
+
+async fn read_dir_inner(st: Arc<Stream>, plan: DirPlan, key: u32, dir: u8, prog: Arc<Mutex<Progress>>) -> Result<(), Fail> {
     let total: usize = plan.chunks.iter().sum();
     let mut got = 0usize;
     let mut k = 0usize;
@@ -226,6 +245,7 @@ pub fn run_pipe_case(case: &PipeCase) -> CaseResult {
     let seed = case.draw_seed;
     let n_streams = plans.len();
 
+    FIRST_FAIL.with(|s| *s.borrow_mut() = None);
     let res: Result<(Vec<u8>, SchedLog), Fail> = run_virtual(async move {
         install_draw(seed);
         let sched = install_schedule(yields);
@@ -320,6 +340,9 @@ pub fn run_pipe_case(case: &PipeCase) -> CaseResult {
             res
         })
         .await;
+        if let Some(f) = FIRST_FAIL.with(|s| s.borrow_mut().take()) {
+            return Err(f);
+        }
         match joined {
             Some(Ok(())) => {}
             Some(Err(f)) => return Err(f),
